@@ -38,10 +38,41 @@ Explains(ev, T, R, lg, post) ==
          /\ n <= Len(lg) /\ IsLogSuffixFor(T, req, SubSeq(lg, 1, n))
          /\ Explains(ev, ApplyWrite(T, req), R \ {i}, SubSeq(lg, n + 1, Len(lg)), post)
 
+\* Known finding KF-26 (SQL backends): the changelog is ordered by ULIDs stamped with the time the
+\* request ARRIVED (sqlite.go Write passes time.Now() into the transaction), not by commit order.
+\* When two requests race on one tuple, the log can list them in the opposite order of their
+\* effects.  Classifier: the round is explainable by a serial order of the successful requests when
+\* the log is read as a bag of entries (every request's entries are there exactly once, the final
+\* state is right), only their order is not that serial order.
+RECURSIVE RemoveOne(_, _)
+RemoveOne(sq, e) == IF sq = <<>> THEN <<>> ELSE IF Head(sq) = e THEN Tail(sq) ELSE <<Head(sq)>> \o RemoveOne(Tail(sq), e)
+RECURSIVE RemoveAll(_, _)
+RemoveAll(sq, es) == IF es = <<>> THEN sq ELSE RemoveAll(RemoveOne(sq, Head(es)), Tail(es))
+InBag(sq, e) == \E i \in DOMAIN sq : sq[i] = e
+RECURSIVE AllInBag(_, _)
+AllInBag(sq, es) == IF es = <<>> THEN TRUE ELSE InBag(sq, Head(es)) /\ AllInBag(RemoveOne(sq, Head(es)), Tail(es))
+RECURSIVE SetToSeq(_)
+SetToSeq(S) == IF S = {} THEN <<>> ELSE LET x == CHOOSE y \in S : TRUE IN <<x>> \o SetToSeq(S \ {x})
+Entries(T, req) ==
+  LET ds == SetToSeq(EffDels(T, req))
+      dseq == [i \in DOMAIN ds |-> [op |-> "delete", key |-> ds[i], cond |-> "none"]]
+      ew == EffWrs(T, req)
+  IN dseq \o [i \in DOMAIN ew |-> [op |-> "write", key |-> ew[i].key, cond |-> "none"]]
+RECURSIVE ExplainsBag(_, _, _, _, _)
+ExplainsBag(ev, T, R, lg, post) ==
+  IF R = {} THEN lg = <<>> /\ T = post
+  ELSE \E i \in R :
+         LET req == ReqOf(ev.reqs[i]) es == Entries(T, req) IN
+         /\ WriteOutcome(T, req) = "ok"
+         /\ AllInBag(lg, es)
+         /\ ExplainsBag(ev, ApplyWrite(T, req), R \ {i}, RemoveAll(lg, es), post)
+
 TrConc ==
   /\ IsEvent("ConcWrites")
   /\ LET okReqs == {i \in DOMAIN Ev1.reqs : Ev1.reqs[i].ok}
          c == IF Explains(Ev1, TOf(Ev1.pre), okReqs, LogOf(Ev1.log), TOf(Ev1.post)) THEN "OK_CONC_SERIALIZABLE"
+              ELSE IF Ev1.backend # "memory" /\ ExplainsBag(Ev1, TOf(Ev1.pre), okReqs, LogOf(Ev1.log), TOf(Ev1.post))
+                   THEN "KF_SqlChangelogOrderNotCommitOrder"
               ELSE "BAD_CONC_WRITES_NOT_SERIALIZABLE"
      IN /\ counts' = Bump(counts, c) /\ judged' = judged + 1
         /\ bad' = IF c = "OK_CONC_SERIALIZABLE" THEN bad ELSE Append(bad, [l |-> l, cls |-> c, ref |-> "", note |-> Ev1.backend])
